@@ -27,6 +27,9 @@ type GenOpts struct {
 	NoUnions bool
 	// RootTypename allows __typename directly on the query root.
 	RootTypename bool
+	// PreferObjectDup makes duplicated selections favour object fields (whose
+	// sub-selections then have to be merged).
+	PreferObjectDup bool
 }
 
 func DefaultGenOpts() GenOpts {
@@ -304,11 +307,22 @@ func (g *generator) set(typ string, depth int) *SelSet {
 	for i := 0; i < n; i++ {
 		switch {
 		case depth > 1 && g.p(g.o.PInline):
-			s.Items = append(s.Items, SelItem{Frag: &Frag{On: typ, Set: g.set(typ, depth-1), Dirs: g.dirs()}})
+			fr := &Frag{On: typ, Set: g.set(typ, depth-1), Dirs: g.dirs()}
+			s.Items = append(s.Items, SelItem{Frag: fr})
+			fields = append(fields, topFields(fr.Set)...)
 		case depth > 1 && g.p(g.o.PNamed):
-			s.Items = append(s.Items, SelItem{Frag: g.namedFrag(typ, depth-1)})
+			fr := g.namedFrag(typ, depth-1)
+			s.Items = append(s.Items, SelItem{Frag: fr})
+			// fields selected inside the fragment may be selected again
+			// directly (same alias, other sub-selection)
+			fields = append(fields, topFields(fr.Set)...)
 		case len(fields) > 0 && g.p(g.o.PDupAlias):
 			prev := fields[g.r.Intn(len(fields))]
+			if g.o.PreferObjectDup {
+				for tries := 0; tries < 4 && prev.Sub == nil; tries++ {
+					prev = fields[g.r.Intn(len(fields))]
+				}
+			}
 			dup := &Field{Alias: prev.Alias, Name: prev.Name, Args: prev.Args, Dirs: g.dirs()}
 			if prev.Sub != nil {
 				fd := t.Fields[prev.Name]
@@ -323,4 +337,28 @@ func (g *generator) set(typ string, depth int) *SelSet {
 		}
 	}
 	return s
+}
+
+// topFields lists the field selections directly inside a selection set.
+func topFields(s *SelSet) []*Field {
+	var out []*Field
+	for _, it := range s.Items {
+		if it.Field != nil && it.Field.Name != "__typename" {
+			out = append(out, it.Field)
+		}
+	}
+	return out
+}
+
+// MergeHeavy returns options that stress selection merging: many duplicated
+// object selections and re-used named fragments.
+func MergeHeavy(o GenOpts) GenOpts {
+	o.PDupAlias = 0.45
+	o.PNamed = 0.3
+	o.PInline = 0.15
+	o.PreferObjectDup = true
+	if o.MaxWidth < 6 {
+		o.MaxWidth = 6
+	}
+	return o
 }
